@@ -158,7 +158,22 @@ func timed(mode string, op func(ctx context.Context) error) (string, string) {
 	}
 }
 
+// runCancelX never hangs: a case that does not finish within 20 s is reported as such (the goroutines of
+// the stuck operation are abandoned).
 func runCancelX(c cancelX) string {
+	done := make(chan string, 1)
+	go func() { done <- runCancelXInner(c) }()
+	select {
+	case l := <-done:
+		return l
+	case <-time.After(20 * time.Second):
+		l := &Line{}
+		l.S("cancel").S("x").S(c.transport).S(c.api).S(c.mode).S("|").S("watchdog").S("none").N(0).S("na")
+		return l.String()
+	}
+}
+
+func runCancelXInner(c cancelX) string {
 	verdict, ec, reuse := "setup", "none", "na"
 	base := stableGoroutines()
 	gdelta := 0
@@ -185,7 +200,7 @@ func runCancelX(c cancelX) string {
 			verdict, ec = timed(c.mode, func(ctx context.Context) error { _, err := cx.Write(ctx, make([]byte, 8<<20)); return err })
 		}
 		gdelta = settleGoroutines(base)
-		if c.api != "write" {
+		if c.api != "write" && verdict == "fast" {
 			go b.Write([]byte("pong\x00raw"))
 			lctx, lc := live()
 			f, e1 := cx.ReadBytes(lctx, 0)
@@ -251,13 +266,15 @@ func runCancelX(c cancelX) string {
 				return conn.Call(ctx, "org.verif.silent.First", nil, &out)
 			})
 			gdelta = settleGoroutines(base)
-			lctx, lc := live()
-			var out map[string]interface{}
-			e := conn.Call(lctx, "org.verif.silent.Second", nil, &out)
-			lc()
-			reuse = "fail"
-			if e == nil {
-				reuse = "ok"
+			if verdict == "fast" {
+				lctx, lc := live()
+				var out map[string]interface{}
+				e := conn.Call(lctx, "org.verif.silent.Second", nil, &out)
+				lc()
+				reuse = "fail"
+				if e == nil {
+					reuse = "ok"
+				}
 			}
 		} else {
 			big := strings.Repeat("x", 8<<20)
@@ -344,9 +361,11 @@ func runCancelX(c cancelX) string {
 		}
 		gdelta = settleGoroutines(base)
 	}
-	for _, f := range cleanup {
-		f()
-	}
+	go func() {
+		for _, f := range cleanup {
+			f()
+		}
+	}()
 	l := &Line{}
 	l.S("cancel").S("x").S(c.transport).S(c.api).S(c.mode).S("|").S(verdict).S(ec).N(gdelta).S(reuse)
 	return l.String()
